@@ -745,7 +745,38 @@ def fam_history(v, n, model):
     return ops
 
 
+def fam_cache(v, n):
+    """C13: the key function and the memoising wrappers of spil/util/caching.py against Model/Cache.lean:
+    keys of generated call spellings, and call histories through lru_cache / hit_cache with small
+    capacities (per call: served from the cache or not, and the answer)"""
+    rng = v.rng
+    vals = ["", "a", "b", "local", "server", "True", "x"]
+    names = ["config", "_type", "do_uniquify", "do_extrapolate", "k"]
+
+    def call():
+        args = [rng.choice(vals) for _ in range(rng.randint(0, 3))]
+        kw = {}
+        for nm in rng.sample(names, rng.randint(0, 3)):
+            kw[nm] = rng.choice(vals)
+        return {"args": args, "kwargs": [[k, val] for k, val in kw.items()]}
+    ops = []
+    for _ in range(n):
+        c = call()
+        ops.append({"op": "make_key", "args": c["args"], "kwargs": c["kwargs"]})
+    for _ in range(max(2, n // 10)):
+        pool = [call() for _ in range(rng.randint(2, 6))]
+        # the same values spelled positionally and by keyword, in one or the other parameter slot
+        a = rng.choice(vals)
+        pool += [{"args": ["s", a], "kwargs": []}, {"args": ["s"], "kwargs": [["do_uniquify", a]]},
+                 {"args": ["s"], "kwargs": [["do_extrapolate", a]]},
+                 {"args": ["s"], "kwargs": [["do_uniquify", "b"], ["do_extrapolate", a]]}, {"args": ["s", a, "b"], "kwargs": []}]
+        calls = [rng.choice(pool) for _ in range(rng.randint(4, 30))]
+        ops.append({"op": "cache_history", "calls": calls, "max": rng.choice([1, 2, 3, 4096]), "hit_cache": rng.random() < 0.4})
+    return ops
+
+
 FAMILIES = {
+    "cache": fam_cache,
     "tree": fam_tree,
     "history": fam_history,
     "unfold": fam_unfold,
